@@ -2,7 +2,7 @@
     Gen/Trans_aml_tree.v is regenerated on every run by gen/gotrans (pool-pointer mode, gen/gotrans/ext_c13trans.go,
     config gen/gotrans/aml_tree.json) from kernel/device/acpi/aml/obj_tree.go: ObjectAt, newObject, newNamedObject,
     append, appendAfter, detach, free (here), NumArgs, ArgAt, ClosestNamedAncestor (Props/C13_trans_q.v), and Find,
-    findRelative (translated and run against the model in Props/C13_trans_examples.v, no equality theorem yet).  ObjectTree / Object become records; `objPool []*Object` is the list of the pointees,
+    findRelative (Props/C13_trans_find.v).  ObjectTree / Object become records; `objPool []*Object` is the list of the pointees,
     a `*Object` is `option N` - the POSITION in the pool, nil = None (soundness assumption of the mode: objects never
     move in objPool, no entry is nil, every *Object in play comes from this pool; `obj.index` is a plain field that is
     read and written like any other, it is NOT assumed to equal the position); `obj.f` through nil or a position beyond
